@@ -221,7 +221,8 @@ example :
       ∧ (keyLookup noStrip ⟨.text, .localName (.step .self .parent .node)⟩ ⟨doc, []⟩ "a").map List.length = some 2 := by
   decide +kernel
 
-/-- `xsl:number level="single"` and `level="multiple"` (with or without `from`): the ancestors collected by
+/-- `xsl:number level="single"` and `level="multiple"` (with or without `from`; an ancestor matching `from` ends
+the search for both levels, the context node is not tested): the ancestors collected by
 `getMatchingAncestors` correspond and each one's number — itself plus the preceding siblings `getPreviousNode`
 finds matching `count` — is the same on `D` asking `sp` and on `D'`. -/
 theorem number_single_multiple_simulation (sp : StripFn) (countT : Test) (fromT : Option Test) (single : Bool)
@@ -229,44 +230,46 @@ theorem number_single_multiple_simulation (sp : StripFn) (countT : Test) (fromT 
     numberList sp countT fromT single l = numberList noStrip countT fromT single (l.strip sp) :=
   numberList_strip sp countT fromT single l h
 
-/-- `xsl:number level="any"` without `from`: the C++ backwards walk (`findPrecedingOrAncestorOrSelf`, then
-`getPreviousNode` iterated by `countNode`; previous sibling → dive to its last descendant, else parent, stop at the
-document) computes the Recommendation's count — the nodes matching `count` among the current node and all
-nodes before it in document order — for every tree, provided the fuel covers the nodes before `l`. -/
-theorem number_any_nofrom_loop_eq_count (sp : StripFn) (countT : Test) (fuel : Nat) (l : Loc)
+/-- `xsl:number level="any"`, with or without `from`: the C++ backwards walk (`findPrecedingOrAncestorOrSelf`,
+then `getPreviousNode` iterated by `countNode`; previous sibling → dive to its last descendant, else parent; every
+node walked over is tested against `from`, the context node excepted) computes the Recommendation's count — the
+nodes matching `count` among the current node and the nodes before it in document order, after the first one
+before it that matches `from` — for every tree, provided the fuel covers the nodes before `l`. -/
+theorem number_any_loop_eq_count (sp : StripFn) (countT : Test) (fromT : Option Test) (fuel : Nat) (l : Loc)
     (h : l.before.length + 1 < fuel) :
-    numberAny sp countT none fuel l = numberAnySpec sp countT l :=
-  numberAny_eq_spec sp countT fuel l h
+    numberAny sp countT fromT fuel l = numberAnySpec sp countT fromT l :=
+  numberAny_eq_spec sp countT fromT fuel l h
 
-/-- … and that count is the same on `D` asking `sp` and on `D'`. -/
-theorem number_any_count_simulation (sp : StripFn) (countT : Test) (l : Loc) (h : l.stripped sp = false) :
-    numberAnySpec sp countT l = numberAnySpec noStrip countT (l.strip sp) :=
-  numberAnySpec_strip sp countT l h
+/-- … and that count is the same on `D` asking `sp` and on `D'` (a stripped node matches neither pattern, so it
+neither counts nor ends the search). -/
+theorem number_any_count_simulation (sp : StripFn) (countT : Test) (fromT : Option Test) (l : Loc)
+    (h : l.stripped sp = false) :
+    numberAnySpec sp countT fromT l = numberAnySpec noStrip countT fromT (l.strip sp) :=
+  numberAnySpec_strip sp countT fromT l h
 
-/-- **`xsl:number level="any"` without `from` has the property**: the walk over the physical tree `D` (which
-does step on stripped text nodes) yields the number the walk over `D'` yields. -/
-theorem number_any_nofrom_simulation (sp : StripFn) (countT : Test) (fuel fuel' : Nat) (l : Loc)
+/-- **`xsl:number level="any"` has the property, with `from` too** (since /repo f84b15b; before that fix the
+walk tested `from` only while climbing and a stripped text node could decide which elements got tested — the
+former `number_any_from_counterexample`): the walk over the physical tree `D`, which does step on stripped text
+nodes, yields the number the walk over `D'` yields. -/
+theorem number_any_simulation (sp : StripFn) (countT : Test) (fromT : Option Test) (fuel fuel' : Nat) (l : Loc)
     (h : l.stripped sp = false) (hf : l.before.length + 1 < fuel) (hf' : (l.strip sp).before.length + 1 < fuel') :
-    numberAny sp countT none fuel l = numberAny noStrip countT none fuel' (l.strip sp) := by
-  rw [numberAny_eq_spec sp countT fuel l hf, numberAny_eq_spec noStrip countT fuel' _ hf']
-  exact numberAnySpec_strip sp countT l h
+    numberAny sp countT fromT fuel l = numberAny noStrip countT fromT fuel' (l.strip sp) := by
+  rw [numberAny_eq_spec sp countT fromT fuel l hf, numberAny_eq_spec noStrip countT fromT fuel' _ hf']
+  exact numberAnySpec_strip sp countT fromT l h
 
-/-- **`xsl:number level="any"` with `from=` is NOT insensitive to stripped nodes** (the unchanged code;
-known finding C13-number-any-from).  `getPreviousNode` walks the physical tree and tests `from` only when it
-climbs from a first child to its parent.  On `<r><x>x</x><b><a> </a></b>y</r>` with `strip-space elements="a"`,
-`<xsl:number level="any" count="text()" from="a"/>` at the text `y`: the walk on `D` dives into the stripped
-text inside `a`, climbs to `a`, `from` matches, stop — 1.  On `D'` the element `a` is empty, the walk passes it
-without the `from` test and reaches the text `x` — 2. -/
-theorem number_any_from_counterexample :
+/-- non-vacuity, on the witness that used to separate `D` and `D'`: `<r><x>x</x><b><a> </a></b>y</r>`,
+`strip-space elements="a"`, `<xsl:number level="any" count="text()" from="a"/>` at the text `y` is 1 on both
+sides now (the element `a` ends the search whether or not the stripped text is inside it); without `from`, 2. -/
+example :
     let sp : StripFn := stripOf [⟨"", "a", true⟩]
     let xN : Node := .elem 2 (some ⟨⟨"", "x"⟩, false, []⟩) [.text 3 "x"]
     let bN : Node := .elem 4 (some ⟨⟨"", "b"⟩, false, []⟩) [.elem 5 (some ⟨⟨"", "a"⟩, false, []⟩) [.text 6 " "]]
     let y : Loc := ⟨.text 7 "y", [⟨[bN, xN], 1, some ⟨⟨"", "r"⟩, false, []⟩, []⟩, ⟨[], 0, none, []⟩]⟩
     y.stripped sp = false
       ∧ numberAny sp .text (some (.name ⟨"", "a"⟩)) 20 y = 1
-      ∧ numberAny noStrip .text (some (.name ⟨"", "a"⟩)) 20 (y.strip sp) = 2
-      -- without `from` both sides agree on this witness
-      ∧ numberAny sp .text none 20 y = numberAny noStrip .text none 20 (y.strip sp) := by
+      ∧ numberAny noStrip .text (some (.name ⟨"", "a"⟩)) 20 (y.strip sp) = 1
+      ∧ numberAny sp .text none 20 y = 2
+      ∧ numberAny noStrip .text none 20 (y.strip sp) = 2 := by
   decide
 
 /-! ## tie to the source text (regenerated by `translate/c13_sites.py` on every run) -/
@@ -276,13 +279,7 @@ accounts for, and each of those is still there with the same condition. -/
 theorem observation_sites_accounted : XalanModel.Generated.C13_Sites.sites = expectedSites := rfl
 
 /-- The statements that fix the order of `m_whitespaceElements`, the first-match decision and the `xml:space`
-walk read as the model transcribes them — or the tree is the one before the `xml:space` repair (no walk; the
-listed known finding), and everything else reads as transcribed. -/
-theorem ordering_code_as_modelled :
-    XalanModel.Generated.C13_Sites.facts = expectedFacts
-      ∨ XalanModel.Generated.C13_Sites.facts = expectedFactsBeforeXmlSpaceFix := by
-  first
-    | exact Or.inl rfl
-    | exact Or.inr rfl
+walk read as the model transcribes them. -/
+theorem ordering_code_as_modelled : XalanModel.Generated.C13_Sites.facts = expectedFacts := rfl
 
 end XalanModel.Props.C13
